@@ -60,6 +60,7 @@ type Graph struct {
 	Entry *Node
 	Exit  *Node
 	byAST map[ast.Node]*Node
+	live  map[*Node]bool
 }
 
 // NewGraph builds the statement-level graph for body.
@@ -181,6 +182,17 @@ func (g *Graph) NodeContaining(pos token.Pos) *Node {
 		}
 	}
 	return nil
+}
+
+// Live reports whether n is reachable from the entry (edges pruned as infeasible are gone from the graph).
+func (g *Graph) Live(n *Node) bool {
+	if g.live == nil {
+		g.live = map[*Node]bool{}
+		for m := range g.Reach([]*Visit{StartAt(g.Entry, 0)}, nil) {
+			g.live[m] = true
+		}
+	}
+	return g.live[n]
 }
 
 // Returns lists the return nodes (predecessors of Exit).
